@@ -4,22 +4,20 @@ C18 — model `Sm` of `fiber::SharedMutex` / `fiber::SharedTimedMutex`.
 Written from /repo: src/fault/fiber/shared_mutex.cpp, include/yaclib/fault/detail/fiber/shared_timed_mutex.hpp
 (scheduler abstraction and conventions as in Model/FiberSync.lean).
 
-The model contains the code as it is:
-  D5  `SharedTimedMutex::TimedWaitHelper(timeout, exclusive)` ends in `SharedLockHelper()` also for `exclusive == true`:
-      an exclusive `try_lock_for/until` registers as a *shared* owner (`_exclusive_mode = false`, `_shared_owners_count++`),
-      and the matching `unlock()` does not undo the count (rules `txFast`, `txWokenAcq`; ghost counter `d5`);
-  D6  `lock()`, `lock_shared()` and `TimedWaitHelper` take the lock after a wake-up without re-checking the condition
-      (rules `xWokenAcq`, `sWokenAcq`, `txWokenAcq`, `tsWokenAcq`; ghost counter `d6` counts those that found the
-      lock in an incompatible state);
-  D7  `lock_shared()` parks on `_exclusive_queue`; `unlock()` wakes the whole `_shared_queue` (used only by
-      `try_lock_shared_for/until`) or ONE fiber of `_exclusive_queue`, chosen by `GetRandNumber(2)` when both are
-      non-empty: parked readers are woken one at a time, by whoever unlocks next.
-
-The flag `fixed` switches on the *proposed repairs* of D5, D6 and D7 together (notes/C18_proposed_patches.diff):
-every wait sits in a `while` that re-evaluates its condition (timed ones with the deadline computed once at the call),
-`lock_shared()` waits on `_shared_queue`, `TimedWaitHelper` ends in `LockHelper()` for an exclusive request, and
-`unlock()` is `_occupied = false; _shared_queue.NotifyAll(); _exclusive_queue.NotifyOne();`.  It is not the code; every
-theorem about the code is stated for `fixed = false`, the theorems for `fixed = true` show the repairs are sufficient.
+History: until the fix commits 37d0a59 (SharedTimedMutex) and 5d29c51 (SharedMutex) the code had
+  D5  `SharedTimedMutex::TimedWaitHelper(timeout, exclusive)` ended in `SharedLockHelper()` also for `exclusive == true`: an
+      exclusive `try_lock_for` registered as a shared owner — scenario `sharedt f0=LS,US f1=F50,U f2=TS,US`, choices
+      `k0/3 p0/2 p0/2 k0/3 p1/2 k0/2 p0/2 p0/2 k0/2` (writer + reader); sequential aftermath `sharedt f0=F50,U f1=LS,US f2=L,U`,
+      choices `k0/3 p0/2 p0/2 k0/3 p0/2 p0/2 k0/2` (the lock stays `_occupied` with no holder);
+  D6  `lock()`, `lock_shared()` and `TimedWaitHelper` took the lock after a wake-up without re-checking (single `if`) —
+      scenario `shared f0=LS,US f1=L,U f2=LS,US`, choices `k0/3 p1/2 k0/2 k1/2 p0/2 k0/3 p1/2 k0/2 k0/2` (writer next to reader);
+  D7  `lock_shared()` parked on `_exclusive_queue`; `unlock()` woke the whole `_shared_queue` or ONE fiber of
+      `_exclusive_queue`, by `GetRandNumber(2)` when both were non-empty — scenario `shared f0=L,U f1=LS,J2,US f2=LS,US`,
+      choices `k0/3 p1/2 k0/2 k0/2 k0/2 p0/2 k0/2 p0/2` (a reader parked while only a reader holds),
+and this model contained them (see git history and notes/C18.md).  It now describes the repaired code: every wait sits in
+a `while` that re-evaluates its condition (timed ones with the deadline computed once at the call), `lock_shared()` waits
+on `_shared_queue`, `TimedWaitHelper` ends in `LockHelper()` for an exclusive request, and `unlock()` is
+`_occupied = false; _shared_queue.NotifyAll(); _exclusive_queue.NotifyOne();` (no random draw any more).
 -/
 import YaclibModel.Model.FiberSync
 
@@ -28,46 +26,36 @@ open Yaclib.FiberSync
 
 inductive Pc where
   | idle | done
-  | xParked | xWoken                         -- `lock()` on `_exclusive_queue`
-  | sParked | sWoken                         -- `lock_shared()` on `_exclusive_queue` (D7)
-  | txParked (req dl : Nat) | txWoken        -- `try_lock_for/until` on `_exclusive_queue`
-  | tsParked (req dl : Nat) | tsWoken        -- `try_lock_shared_for/until` on `_shared_queue`
-  | xLocking | sLocking                      -- (repaired) notified: evaluates the `while` condition again
+  | xParked                                  -- `lock()` on `_exclusive_queue`
+  | sParked                                  -- `lock_shared()` on `_shared_queue`
+  | txParked (req dl : Nat)                  -- `try_lock_for/until` on `_exclusive_queue`
+  | tsParked (req dl : Nat)                  -- `try_lock_shared_for/until` on `_shared_queue`
+  | xLocking | sLocking                      -- notified: evaluates the `while` condition again
   | txLocking (req : Nat) | tsLocking (req : Nat)
   | sleeping (dl : Nat)
   deriving DecidableEq, Repr
 
-def Pc.inEq : Pc → Bool
-  | .xParked => true | .sParked => true | .txParked _ _ => true | _ => false
-
-def Pc.inSq : Pc → Bool
-  | .tsParked _ _ => true | _ => false
-
-def Pc.oldWoken : Pc → Bool
-  | .xWoken => true | .sWoken => true | .txWoken => true | .tsWoken => true | _ => false
-
-/-- (repaired) about to re-evaluate the condition of an exclusive / shared request -/
+/-- about to re-evaluate the condition of an exclusive / shared request -/
 def Pc.recheckX : Pc → Bool
   | .xLocking => true | .txLocking _ => true | _ => false
 def Pc.recheckS : Pc → Bool
   | .sLocking => true | .tsLocking _ => true | _ => false
 
-/-- (repaired) the queues: writers on the exclusive one, readers on the shared one -/
+/-- the queues: writers on the exclusive one, readers on the shared one -/
 def Pc.onE : Pc → Bool
   | .xParked => true | .txParked _ _ => true | _ => false
 def Pc.onS : Pc → Bool
   | .sParked => true | .tsParked _ _ => true | _ => false
 
-def wake (fixed : Bool) : Pc → Pc
-  | .xParked => if fixed then .xLocking else .xWoken
-  | .sParked => if fixed then .sLocking else .sWoken
-  | .txParked req _ => if fixed then .txLocking req else .txWoken
-  | .tsParked req _ => if fixed then .tsLocking req else .tsWoken
+def wake : Pc → Pc
+  | .xParked => .xLocking
+  | .sParked => .sLocking
+  | .txParked req _ => .txLocking req
+  | .tsParked req _ => .tsLocking req
   | p => p
 
 structure State where
   timed : Bool
-  fixed : Bool                 -- hypothetical: D5, D6, D7 repaired (see header); `false` = the code
   pc : Fid → Pc
   occ : Bool                   -- `_occupied`
   excl : Bool                  -- `_exclusive_mode`
@@ -79,12 +67,10 @@ structure State where
   xh : List Fid                -- fibers whose last exclusive acquisition succeeded and that have not called `unlock`
   sh : List Fid                -- same for shared / `unlock_shared`
   transit : List Fid           -- fibers made runnable by a NotifyOne on the exclusive queue that have not run yet
-  d5 : Nat                     -- exclusive acquisitions through `TimedWaitHelper` (registered as shared)
-  d6 : Nat                     -- acquisitions after a wake-up that found the lock incompatible
 
-def init (timed fixed : Bool) (n : Nat) : State :=
-  { timed := timed, fixed := fixed, pc := fun g => if g < n then .idle else .done, occ := false, excl := false, cnt := 0,
-    sq := [], eq := [], now := 0, xh := [], sh := [], transit := [], d5 := 0, d6 := 0 }
+def init (timed : Bool) (n : Nat) : State :=
+  { timed := timed, pc := fun g => if g < n then .idle else .done, occ := false, excl := false, cnt := 0,
+    sq := [], eq := [], now := 0, xh := [], sh := [], transit := [] }
 
 /-- `_occupied && _exclusive_mode`: what makes `lock_shared` / `try_lock_shared` wait or fail -/
 def XHeld (s : State) : Prop := s.occ = true ∧ s.excl = true
@@ -95,9 +81,9 @@ inductive Label where
   | xAcq (f : Fid)                                  -- `f E ret lock`
   | xPark (f : Fid)                                 -- `f M eq park 0` inside `lock`
   | tryX (f : Fid) (ok : Bool)                      -- `f E ret try_lock b`
-  | unlock (f : Fid) (coin : Bool) (w : Option Fid) -- `f E ret unlock` (+ `f E coin c`, `f M eq notify_one r idx`)
+  | unlock (f : Fid) (w : Option Fid)               -- `f M sq notify_all r`, `f M eq notify_one r idx`, `f E ret unlock`
   | sAcq (f : Fid)                                  -- `f E ret lock_shared`
-  | sPark (f : Fid)                                 -- `f M eq park 0` inside `lock_shared`
+  | sPark (f : Fid)                                 -- `f M sq park 0` inside `lock_shared`
   | tryS (f : Fid) (ok : Bool)                      -- `f E ret try_lock_shared b`
   | unlockS (f : Fid) (w : Option Fid)              -- `f E ret unlock_shared`
   | txAcq (f : Fid)                                 -- `f E ret try_lock_for 1`
@@ -106,7 +92,7 @@ inductive Label where
   | tsAcq (f : Fid)                                 -- `f E ret try_lock_shared_for 1`
   | tsPark (f : Fid) (t d j : Nat)                  -- `f M sq park_timed 0 @t j=j`
   | tsTimeout (f : Fid) (t : Nat)                   -- `f M sq wake 1 @t`
-  | txRepark (f : Fid) (j : Nat) | tsRepark (f : Fid) (j : Nat)   -- (repaired) `park_timed` again after a wake-up
+  | txRepark (f : Fid) (j : Nat) | tsRepark (f : Fid) (j : Nat)   -- `park_timed` again after a wake-up
   | sleepStart (f : Fid) (t d : Nat) | sleepWake (f : Fid) (t : Nat)
   | finish (f : Fid)
   deriving DecidableEq, Repr
@@ -120,47 +106,22 @@ def sharedHelper (s : State) (f : Fid) : State :=
   { s with occ := true, excl := false, cnt := s.cnt + 1, sh := s.sh ++ [f], pc := upd s.pc f .idle,
            transit := rm s.transit f }
 
-/-- D5: `SharedLockHelper()` by an *exclusive* timed request -/
-def sharedHelperX (s : State) (f : Fid) : State :=
-  { s with occ := true, excl := false, cnt := s.cnt + 1, xh := s.xh ++ [f], pc := upd s.pc f .idle, d5 := s.d5 + 1,
-           transit := rm s.transit f }
-
-def bumpX (s : State) : Nat := s.d6 + (if s.occ then 1 else 0)
-def bumpS (s : State) : Nat := s.d6 + (if s.occ && s.excl then 1 else 0)
-
 def notifyE (s : State) : Option Fid → State
   | none => s
-  | some g => { s with eq := rm s.eq g, pc := upd s.pc g (wake s.fixed (s.pc g)), transit := s.transit ++ [g] }
+  | some g => { s with eq := rm s.eq g, pc := upd s.pc g (wake (s.pc g)), transit := s.transit ++ [g] }
 
 /-- `if (b) _shared_queue.NotifyAll()` -/
 def notifyAllS (b : Bool) (s : State) : State :=
-  { s with sq := if b then [] else s.sq, pc := fun g => if b = true ∧ g ∈ s.sq then wake s.fixed (s.pc g) else s.pc g }
-
-/-- `const bool unlock_shared = !_shared_queue.Empty() && (_exclusive_queue.Empty() || GetRandNumber(2) == 0)`;
-    `coin` = "the draw was 0" (false when nothing was drawn) -/
-def wakesShared (s : State) (coin : Bool) : Bool := !s.sq.isEmpty && (s.eq.isEmpty || coin)
-
-/-- the coin is drawn only when both queues are non-empty -/
-def CoinOk (s : State) (coin : Bool) : Prop := (s.sq = [] ∨ s.eq = []) → coin = false
-
-instance (s : State) (c : Bool) : Decidable (CoinOk s c) := by unfold CoinOk; exact inferInstance
-
-/-- `unlock()`: `_occupied = false`, then one of the two notifications (`w = none` when the shared queue is woken,
-    see `UnlockPick`); the counters are not touched -/
-def doUnlock (s : State) (f : Fid) (coin : Bool) (w : Option Fid) : State :=
-  notifyE (notifyAllS (wakesShared s coin) { s with occ := false, xh := s.xh.erase f }) w
+  { s with sq := if b then [] else s.sq, pc := fun g => if b = true ∧ g ∈ s.sq then wake (s.pc g) else s.pc g }
 
 /-- `unlock_shared()`: `_shared_owners_count--; if (_shared_owners_count == 0) { _occupied = false; _exclusive_queue.NotifyOne(); }`
     (`w = none` when the count stays positive, see `UnlockSPick`) -/
 def doUnlockS (s : State) (f : Fid) (w : Option Fid) : State :=
   notifyE { s with cnt := s.cnt - 1, sh := s.sh.erase f, occ := if s.cnt - 1 = 0 then false else s.occ } w
 
-def UnlockPick (s : State) (coin : Bool) (w : Option Fid) : Prop :=
-  if wakesShared s coin then w = none else PickOk s.eq w
 def UnlockSPick (s : State) (w : Option Fid) : Prop :=
   if s.cnt - 1 = 0 then PickOk s.eq w else w = none
 
-instance (s : State) (c : Bool) (w : Option Fid) : Decidable (UnlockPick s c w) := by unfold UnlockPick; exact inferInstance
 instance (s : State) (w : Option Fid) : Decidable (UnlockSPick s w) := by unfold UnlockSPick; exact inferInstance
 
 def parkE (s : State) (f : Fid) (p : Pc) : State :=
@@ -168,44 +129,31 @@ def parkE (s : State) (f : Fid) (p : Pc) : State :=
 def parkS (s : State) (f : Fid) (p : Pc) : State :=
   { s with sq := s.sq ++ [f], pc := upd s.pc f p, transit := rm s.transit f }
 
-/-- (repaired) `unlock()`: `_occupied = false; _shared_queue.NotifyAll(); _exclusive_queue.NotifyOne();` -/
-def doUnlockF (s : State) (f : Fid) (w : Option Fid) : State :=
+/-- `unlock()`: `_occupied = false; _shared_queue.NotifyAll(); _exclusive_queue.NotifyOne();` -/
+def doUnlock (s : State) (f : Fid) (w : Option Fid) : State :=
   notifyE (notifyAllS true { s with occ := false, xh := s.xh.erase f }) w
 
 inductive Step : State → Label → State → Prop where
   -- lock(): `if (_occupied) { _exclusive_queue.Wait(); } LockHelper();`
   | xFast (s : State) (f : Fid) (h : s.pc f = .idle) (ho : s.occ = false) : Step s (.xAcq f) (lockHelper s f)
   | xPark (s : State) (f : Fid) (h : s.pc f = .idle) (ho : s.occ = true) : Step s (.xPark f) (parkE s f .xParked)
-  | xWokenAcq (s : State) (f : Fid) (h : s.pc f = .xWoken) :
-      Step s (.xAcq f) { lockHelper s f with d6 := bumpX s }
   | tryXOk (s : State) (f : Fid) (h : s.pc f = .idle) (ho : s.occ = false) : Step s (.tryX f true) (lockHelper s f)
   | tryXFail (s : State) (f : Fid) (h : s.pc f = .idle) (ho : s.occ = true) : Step s (.tryX f false) s
-  | unlock (s : State) (f : Fid) (coin : Bool) (w : Option Fid) (hx : s.fixed = false) (h : s.pc f = .idle)
-      (hh : f ∈ s.xh) (hc : CoinOk s coin) (hw : UnlockPick s coin w) : Step s (.unlock f coin w) (doUnlock s f coin w)
-  | unlockF (s : State) (f : Fid) (w : Option Fid) (hx : s.fixed = true) (h : s.pc f = .idle) (hh : f ∈ s.xh)
-      (hw : PickOk s.eq w) : Step s (.unlock f false w) (doUnlockF s f w)
+  | unlock (s : State) (f : Fid) (w : Option Fid) (h : s.pc f = .idle) (hh : f ∈ s.xh) (hw : PickOk s.eq w) :
+      Step s (.unlock f w) (doUnlock s f w)
   | xRecheckAcq (s : State) (f : Fid) (h : s.pc f = .xLocking) (ho : s.occ = false) : Step s (.xAcq f) (lockHelper s f)
   | xRepark (s : State) (f : Fid) (h : s.pc f = .xLocking) (ho : s.occ = true) : Step s (.xPark f) (parkE s f .xParked)
   -- lock_shared(): `if (_occupied && _exclusive_mode) { _exclusive_queue.Wait(); } SharedLockHelper();`
   | sFast (s : State) (f : Fid) (h : s.pc f = .idle) (hx : ¬ XHeld s) : Step s (.sAcq f) (sharedHelper s f)
-  | sPark (s : State) (f : Fid) (hfx : s.fixed = false) (h : s.pc f = .idle) (hx : XHeld s) :
-      Step s (.sPark f) (parkE s f .sParked)
-  /-- (repaired) on the shared queue -/
-  | sParkF (s : State) (f : Fid) (hfx : s.fixed = true) (h : s.pc f = .idle) (hx : XHeld s) :
-      Step s (.sPark f) (parkS s f .sParked)
+  | sPark (s : State) (f : Fid) (h : s.pc f = .idle) (hx : XHeld s) : Step s (.sPark f) (parkS s f .sParked)
   | sRecheckAcq (s : State) (f : Fid) (h : s.pc f = .sLocking) (hx : ¬ XHeld s) : Step s (.sAcq f) (sharedHelper s f)
   | sRepark (s : State) (f : Fid) (h : s.pc f = .sLocking) (hx : XHeld s) : Step s (.sPark f) (parkS s f .sParked)
-  | sWokenAcq (s : State) (f : Fid) (h : s.pc f = .sWoken) :
-      Step s (.sAcq f) { sharedHelper s f with d6 := bumpS s }
   | trySOk (s : State) (f : Fid) (h : s.pc f = .idle) (hx : ¬ XHeld s) : Step s (.tryS f true) (sharedHelper s f)
   | trySFail (s : State) (f : Fid) (h : s.pc f = .idle) (hx : XHeld s) : Step s (.tryS f false) s
   | unlockS (s : State) (f : Fid) (w : Option Fid) (h : s.pc f = .idle) (hh : f ∈ s.sh) (hw : UnlockSPick s w) :
       Step s (.unlockS f w) (doUnlockS s f w)
   -- TimedWaitHelper(timeout, exclusive = true)
-  | txFast (s : State) (f : Fid) (hk : s.timed = true) (hfx : s.fixed = false) (h : s.pc f = .idle) (ho : s.occ = false) :
-      Step s (.txAcq f) (sharedHelperX s f)
-  /-- (repaired) `LockHelper()` for an exclusive request -/
-  | txFastF (s : State) (f : Fid) (hk : s.timed = true) (hfx : s.fixed = true) (h : s.pc f = .idle) (ho : s.occ = false) :
+  | txFast (s : State) (f : Fid) (hk : s.timed = true) (h : s.pc f = .idle) (ho : s.occ = false) :
       Step s (.txAcq f) (lockHelper s f)
   | txRecheckAcq (s : State) (f : Fid) (req : Nat) (hk : s.timed = true) (h : s.pc f = .txLocking req) (ho : s.occ = false) :
       Step s (.txAcq f) (lockHelper s f)
@@ -217,8 +165,6 @@ inductive Step : State → Label → State → Prop where
       Step s (.tsRepark f j) (parkS s f (.tsParked req (req + j)))
   | txPark (s : State) (f : Fid) (t d j : Nat) (hk : s.timed = true) (h : s.pc f = .idle) (ho : s.occ = true)
       (ht : s.now ≤ t) : Step s (.txPark f t d j) { parkE s f (.txParked (t + d) (t + d + j)) with now := t }
-  | txWokenAcq (s : State) (f : Fid) (hk : s.timed = true) (h : s.pc f = .txWoken) :
-      Step s (.txAcq f) { sharedHelperX s f with d6 := bumpX s }
   | txTimeout (s : State) (f : Fid) (t req dl : Nat) (hk : s.timed = true) (h : s.pc f = .txParked req dl)
       (hd : dl ≤ t) (ht : s.now ≤ t) :
       Step s (.txTimeout f t) { s with eq := rm s.eq f, pc := upd s.pc f .idle, now := t }
@@ -227,8 +173,6 @@ inductive Step : State → Label → State → Prop where
       Step s (.tsAcq f) (sharedHelper s f)
   | tsPark (s : State) (f : Fid) (t d j : Nat) (hk : s.timed = true) (h : s.pc f = .idle) (hx : XHeld s)
       (ht : s.now ≤ t) : Step s (.tsPark f t d j) { parkS s f (.tsParked (t + d) (t + d + j)) with now := t }
-  | tsWokenAcq (s : State) (f : Fid) (hk : s.timed = true) (h : s.pc f = .tsWoken) :
-      Step s (.tsAcq f) { sharedHelper s f with d6 := bumpS s }
   | tsTimeout (s : State) (f : Fid) (t req dl : Nat) (hk : s.timed = true) (h : s.pc f = .tsParked req dl)
       (hd : dl ≤ t) (ht : s.now ≤ t) :
       Step s (.tsTimeout f t) { s with sq := rm s.sq f, pc := upd s.pc f .idle, now := t }
@@ -238,9 +182,9 @@ inductive Step : State → Label → State → Prop where
       Step s (.sleepWake f t) { s with pc := upd s.pc f .idle, now := t }
   | finish (s : State) (f : Fid) (h : s.pc f = .idle) : Step s (.finish f) { s with pc := upd s.pc f .done }
 
-inductive Reachable (timed fixed : Bool) (n : Nat) : State → Prop where
-  | init : Reachable timed fixed n (init timed fixed n)
-  | step {s l s'} : Reachable timed fixed n s → Step s l s' → Reachable timed fixed n s'
+inductive Reachable (timed : Bool) (n : Nat) : State → Prop where
+  | init : Reachable timed n (init timed n)
+  | step {s l s'} : Reachable timed n s → Step s l s' → Reachable timed n s'
 
 def Quiescent (s : State) : Prop := ∀ l s', ¬ Step s l s'
 
@@ -248,7 +192,6 @@ def next (s : State) : Label → Option State
   | .xAcq f =>
       match s.pc f with
       | .idle => if s.occ = false then some (lockHelper s f) else none
-      | .xWoken => some { lockHelper s f with d6 := bumpX s }
       | .xLocking => if s.occ = false then some (lockHelper s f) else none
       | _ => none
   | .xPark f =>
@@ -261,21 +204,15 @@ def next (s : State) : Label → Option State
         if ok then (if s.occ = false then some (lockHelper s f) else none)
         else (if s.occ = true then some s else none)
       else none
-  | .unlock f coin w =>
-      if s.fixed = false then
-        (if s.pc f = .idle ∧ f ∈ s.xh ∧ CoinOk s coin ∧ UnlockPick s coin w then some (doUnlock s f coin w) else none)
-      else
-        (if s.pc f = .idle ∧ f ∈ s.xh ∧ coin = false ∧ PickOk s.eq w then some (doUnlockF s f w) else none)
+  | .unlock f w => if s.pc f = .idle ∧ f ∈ s.xh ∧ PickOk s.eq w then some (doUnlock s f w) else none
   | .sAcq f =>
       match s.pc f with
       | .idle => if ¬ XHeld s then some (sharedHelper s f) else none
-      | .sWoken => some { sharedHelper s f with d6 := bumpS s }
       | .sLocking => if ¬ XHeld s then some (sharedHelper s f) else none
       | _ => none
   | .sPark f =>
       match s.pc f with
-      | .idle =>
-          if XHeld s then (if s.fixed = false then some (parkE s f .sParked) else some (parkS s f .sParked)) else none
+      | .idle => if XHeld s then some (parkS s f .sParked) else none
       | .sLocking => if XHeld s then some (parkS s f .sParked) else none
       | _ => none
   | .tryS f ok =>
@@ -287,9 +224,7 @@ def next (s : State) : Label → Option State
   | .txAcq f =>
       if s.timed = true then
         match s.pc f with
-        | .idle =>
-            if s.occ = false then (if s.fixed = false then some (sharedHelperX s f) else some (lockHelper s f)) else none
-        | .txWoken => some { sharedHelperX s f with d6 := bumpX s }
+        | .idle => if s.occ = false then some (lockHelper s f) else none
         | .txLocking _ => if s.occ = false then some (lockHelper s f) else none
         | _ => none
       else none
@@ -319,7 +254,6 @@ def next (s : State) : Label → Option State
       if s.timed = true then
         match s.pc f with
         | .idle => if ¬ XHeld s then some (sharedHelper s f) else none
-        | .tsWoken => some { sharedHelper s f with d6 := bumpS s }
         | .tsLocking _ => if ¬ XHeld s then some (sharedHelper s f) else none
         | _ => none
       else none
@@ -348,7 +282,6 @@ theorem next_sound {s : State} {l : Label} {s' : State} (h : next s l = some s')
       · rename_i hp; split at h
         · rename_i ho; cases h; exact .xFast s f hp ho
         · cases h
-      · rename_i hp; cases h; exact .xWokenAcq s f hp
       · rename_i hp; split at h
         · rename_i ho; cases h; exact .xRecheckAcq s f hp ho
         · cases h
@@ -372,22 +305,15 @@ theorem next_sound {s : State} {l : Label} {s' : State} (h : next s l = some s')
           · rename_i ho; cases h; exact .tryXOk s f hp ho
           · cases h
       · cases h
-  | unlock f coin w =>
+  | unlock f w =>
       simp only [next] at h; split at h
-      · rename_i hx; split at h
-        · rename_i hg; cases h; exact .unlock s f coin w hx hg.1 hg.2.1 hg.2.2.1 hg.2.2.2
-        · cases h
-      · rename_i hx; split at h
-        · rename_i hg; cases h
-          have hc := hg.2.2.1; subst hc
-          exact .unlockF s f w (by cases hf : s.fixed <;> simp_all) hg.1 hg.2.1 hg.2.2.2
-        · cases h
+      · rename_i hg; cases h; exact .unlock s f w hg.1 hg.2.1 hg.2.2
+      · cases h
   | sAcq f =>
       simp only [next] at h; split at h
       · rename_i hp; split at h
         · rename_i hx; cases h; exact .sFast s f hp hx
         · cases h
-      · rename_i hp; cases h; exact .sWokenAcq s f hp
       · rename_i hp; split at h
         · rename_i hx; cases h; exact .sRecheckAcq s f hp hx
         · cases h
@@ -395,9 +321,7 @@ theorem next_sound {s : State} {l : Label} {s' : State} (h : next s l = some s')
   | sPark f =>
       simp only [next] at h; split at h
       · rename_i hp; split at h
-        · rename_i hx; split at h
-          · rename_i hfx; cases h; exact .sPark s f hfx hp hx
-          · rename_i hfx; cases h; exact .sParkF s f (by cases hf : s.fixed <;> simp_all) hp hx
+        · rename_i hx; cases h; exact .sPark s f hp hx
         · cases h
       · rename_i hp; split at h
         · rename_i hx; cases h; exact .sRepark s f hp hx
@@ -421,11 +345,8 @@ theorem next_sound {s : State} {l : Label} {s' : State} (h : next s l = some s')
       simp only [next] at h; split at h
       · rename_i hk; split at h
         · rename_i hp; split at h
-          · rename_i ho; split at h
-            · rename_i hfx; cases h; exact .txFast s f hk hfx hp ho
-            · rename_i hfx; cases h; exact .txFastF s f hk (by cases hf : s.fixed <;> simp_all) hp ho
+          · rename_i ho; cases h; exact .txFast s f hk hp ho
           · cases h
-        · rename_i hp; cases h; exact .txWokenAcq s f hk hp
         · rename_i req hp; split at h
           · rename_i ho; cases h; exact .txRecheckAcq s f req hk hp ho
           · cases h
@@ -465,7 +386,6 @@ theorem next_sound {s : State} {l : Label} {s' : State} (h : next s l = some s')
         · rename_i hp; split at h
           · rename_i hx; cases h; exact .tsFast s f hk hp hx
           · cases h
-        · rename_i hp; cases h; exact .tsWokenAcq s f hk hp
         · rename_i req hp; split at h
           · rename_i hx; cases h; exact .tsRecheckAcq s f req hk hp hx
           · cases h
